@@ -127,7 +127,8 @@ def run(plan: dict[str, Any]) -> dict[str, Any]:
     effective: list[tuple[float, int]] = []
     eff_idx: set[int] = set()
     last_set_t = -1.0
-    for op in ops:
+    eff_last_i = -1            # index of the operation that made the last entry of `effective`
+    for oi, op in enumerate(ops):
         k = op["op"]
         t = t0 + op["t"]
         if k == "set":
@@ -135,10 +136,12 @@ def run(plan: dict[str, Any]) -> dict[str, Any]:
             ambiguous = False
             last_set_t = t
             effective.append((t, op["v"]))
+            eff_last_i = oi
         elif k == "set_skip":
             if cur is None or cur != op["v"]:
                 effective.append((t, op["v"]))          # differs from the last one set: must not be swallowed
                 eff_idx.add(id(op))
+                eff_last_i = oi
             cur = op["v"]
             ambiguous = False
             last_set_t = t
@@ -199,7 +202,7 @@ def run(plan: dict[str, Any]) -> dict[str, Any]:
 
     # ---- every effective set ends up on the bus (judged for the final operation only)
     last = ops[-1]
-    if last["op"] in ("set", "set_skip") and effective and effective[-1][0] == t0 + last["t"]:
+    if last["op"] in ("set", "set_skip") and effective and eff_last_i == len(ops) - 1:
         t_set, v = effective[-1]
         deadline = t_set + c + 1e-6
         sent = [(tp, kind) for (tp, kind, pl) in puts if pl == v and t_set - eps <= tp <= deadline]
